@@ -911,3 +911,337 @@ Proof.
       by (rewrite Ht, ninsn_app; cbn [ninsn]; lia).
     apply (HA pre ln _ [] name Ht). left; reflexivity.
 Qed.
+
+(* ------------------------------------------------------------------------------------------ *)
+(** * B.3 Addresses of the instantiated instructions *)
+
+Lemma inst_ok_in_map i lb a ln x : instantiate_one i lb a ln = POk x -> in_instruction_map (k_mn i) = true.
+Proof.
+  unfold instantiate_one; cbv zeta. destruct (in_instruction_map (k_mn i)); [reflexivity | discriminate].
+Qed.
+
+Lemma instantiate_app pre : forall rest labels addr ins,
+  instantiate (pre ++ rest) labels addr = POk ins ->
+  exists i1 i2, instantiate pre labels addr = POk i1 /\
+                instantiate rest labels (addr + 4 * Z.of_nat (ninsn pre)) = POk i2 /\
+                ins = i1 ++ i2 /\ length i1 = ninsn pre.
+Proof.
+  induction pre as [|[ln e] t IH]; intros rest labels addr ins H; cbn [app] in H.
+  - exists [], ins. cbn [ninsn instantiate]. replace (addr + 4 * Z.of_nat 0) with addr by lia.
+    repeat split; [exact H].
+  - cbn [instantiate] in H. cbn [instantiate ninsn].
+    assert (Step: forall x r, instantiate (t ++ rest) labels (addr + 4) = POk r -> ins = x :: r ->
+              forall f, (forall q, f q = POk (x :: q)) ->
+              forall n, (n = 1 + ninsn t)%nat ->
+              exists i1 i2, pbind (instantiate t labels (addr + 4)) f = POk i1 /\
+                instantiate rest labels (addr + 4 * Z.of_nat n) = POk i2 /\
+                ins = i1 ++ i2 /\ length i1 = n).
+    { intros x r Hr -> f Hf n ->. destruct (IH _ _ _ _ Hr) as (i1 & i2 & H1 & H2 & -> & Hl).
+      exists (x :: i1), i2. rewrite H1. cbn [pbind]. rewrite Hf.
+      replace (addr + 4 * Z.of_nat (1 + ninsn t)) with (addr + 4 + 4 * Z.of_nat (ninsn t)) by lia.
+      repeat split; [exact H2 | cbn [length]; lia]. }
+    destruct e as [n|[k|i|]].
+    + apply IH. exact H.
+    + cbn [body_is_instruction]. destruct (k =? 0) eqn:E0.
+      * apply pbind_ok in H as (r & Hr & Hx). injection Hx as <-.
+        apply (Step IEcall r Hr eq_refl); [intros q; reflexivity | reflexivity].
+      * destruct (k =? 1) eqn:E1.
+        -- apply pbind_ok in H as (r & Hr & Hx). injection Hx as <-.
+           apply (Step IEbreak r Hr eq_refl); [intros q; reflexivity | reflexivity].
+        -- cbn [orb]. apply IH. exact H.
+    + apply pbind_ok in H as (x & Hx & H). apply pbind_ok in H as (r & Hr & Hq). injection Hq as <-.
+      rewrite Hx. cbn [pbind body_is_instruction]. rewrite (inst_ok_in_map _ _ _ _ _ Hx).
+      apply (Step x r Hr eq_refl); [intros q; reflexivity | reflexivity].
+    + discriminate H.
+Qed.
+
+Lemma instantiate_addresses_lem : forall text labels ins, instantiate text labels 0 = POk ins ->
+  length ins = ninsn text /\
+  (forall pre ln i post, text = pre ++ (ln, EBody (BIns i)) :: post ->
+     exists x, instantiate_one i labels (4 * Z.of_nat (ninsn pre)) ln = POk x /\
+               nth_error ins (ninsn pre) = Some x) /\
+  (forall pre ln k post, text = pre ++ (ln, EBody (BStr k)) :: post -> (k = 0 \/ k = 1) ->
+     nth_error ins (ninsn pre) = Some (if k =? 0 then IEcall else IEbreak)).
+Proof.
+  intros text labels ins H. split; [|split].
+  - rewrite <- (app_nil_r text) in H. destruct (instantiate_app _ _ _ _ _ H) as (i1 & i2 & _ & H2 & -> & Hl).
+    cbn [instantiate] in H2. injection H2 as <-. rewrite app_nil_r. exact Hl.
+  - intros pre ln i post ->. destruct (instantiate_app _ _ _ _ _ H) as (i1 & i2 & _ & H2 & -> & Hl).
+    cbn [instantiate] in H2. apply pbind_ok in H2 as (x & Hx & H2).
+    apply pbind_ok in H2 as (r & _ & Hq). injection Hq as <-.
+    exists x. split; [exact Hx|]. rewrite nth_error_app2 by lia. rewrite Hl, Nat.sub_diag. reflexivity.
+  - intros pre ln k post -> Hk. destruct (instantiate_app _ _ _ _ _ H) as (i1 & i2 & _ & H2 & -> & Hl).
+    rewrite nth_error_app2 by lia. rewrite Hl, Nat.sub_diag.
+    cbn [instantiate] in H2. destruct Hk as [->| ->]; cbn [Z.eqb Pos.eqb] in *;
+      apply pbind_ok in H2 as (r & _ & Hq); injection Hq as <-; reflexivity.
+Qed.
+
+(* ------------------------------------------------------------------------------------------ *)
+(** * B.4 Branch and jump targets *)
+
+Lemma need_reg_of_field r n ln : reg_field r n -> need_reg r ln = POk n.
+Proof. intros (t & -> & H). apply need_reg_some. exact H. Qed.
+Lemma need_int_of_field s z ln : int_field s z -> need_int s ln = POk z.
+Proof. intros (t & -> & H). apply need_int_some. exact H. Qed.
+
+Lemma label_or_imm_label i lb a ln l t o : k_imm i = None -> k_label i = Some l ->
+  offset_value i o -> mget_opt lb l = Some t -> label_or_imm i lb a ln = POk (t + o - a).
+Proof.
+  intros Hi Hl Ho Hm. unfold label_or_imm, offset_value in *. rewrite Hi, Hl.
+  destruct (k_offset i) as [s|].
+  - rewrite (need_int_some _ _ _ Ho). cbn [pbind]. rewrite Hm. reflexivity.
+  - subst o. cbn [pbind]. rewrite Hm. reflexivity.
+Qed.
+
+Lemma label_or_imm_unknown i lb a ln o : k_imm i = None -> offset_value i o ->
+  (k_label i = None \/ exists l, k_label i = Some l /\ mget_opt lb l = None) ->
+  label_or_imm i lb a ln = PErr (PLabel ln).
+Proof.
+  intros Hi Ho Hl. unfold label_or_imm, offset_value in *. rewrite Hi.
+  assert (Hb: (match k_offset i with Some o0 => need_int (Some o0) ln | None => POk 0 end) = POk o).
+  { destruct (k_offset i) as [s|]; [apply need_int_some; exact Ho | subst o; reflexivity]. }
+  rewrite Hb. cbn [pbind]. destruct Hl as [->|(l & -> & ->)]; reflexivity.
+Qed.
+
+Lemma label_or_imm_num i lb a ln s v : k_imm i = Some s -> py_int0 s = Some v ->
+  label_or_imm i lb a ln = if v mod 2 =? 0 then POk v else PErr (POdd ln).
+Proof.
+  intros Hi Hv. unfold label_or_imm. rewrite Hi. rewrite (need_int_some _ _ _ Hv). reflexivity.
+Qed.
+
+Lemma branch_target_lem : forall i lb a ln, 37 <= k_mn i <= 42 ->
+  (forall l t o rs1 rs2, k_imm i = None -> k_label i = Some l -> offset_value i o ->
+     mget_opt lb l = Some t -> reg_field (k_reg1 i) rs1 -> reg_field (k_reg2 i) rs2 ->
+     instantiate_one i lb a ln = POk (IBranch (bop_of_mn (k_mn i)) rs1 rs2 (sext13 (t + o - a))) /\
+     (-4096 <= t + o - a < 4096 -> a + sext13 (t + o - a) = t + o)) /\
+  (forall s v rs1 rs2, k_imm i = Some s -> py_int0 s = Some v -> v mod 2 = 0 ->
+     reg_field (k_reg1 i) rs1 -> reg_field (k_reg2 i) rs2 ->
+     instantiate_one i lb a ln = POk (IBranch (bop_of_mn (k_mn i)) rs1 rs2 (sext13 v)) /\
+     (-4096 <= v < 4096 -> sext13 v = v)) /\
+  (forall s v, k_imm i = Some s -> py_int0 s = Some v -> v mod 2 <> 0 ->
+     instantiate_one i lb a ln = PErr (POdd ln)) /\
+  (forall o, k_imm i = None -> offset_value i o ->
+     (k_label i = None \/ exists l, k_label i = Some l /\ mget_opt lb l = None) ->
+     instantiate_one i lb a ln = PErr (PLabel ln)).
+Proof.
+  intros i lb a ln Hmn. rewrite (inst_Branch i lb a ln Hmn). split; [|split; [|split]].
+  - intros l t o rs1 rs2 Hi Hl Ho Hm H1 H2. split.
+    + rewrite (label_or_imm_label i lb a ln l t o Hi Hl Ho Hm). cbn [pbind].
+      rewrite (need_reg_of_field _ _ ln H1), (need_reg_of_field _ _ ln H2). reflexivity.
+    + intros Hr. rewrite sext13_small by exact Hr. lia.
+  - intros s v rs1 rs2 Hi Hv He H1 H2. split; [|apply sext13_small].
+    rewrite (label_or_imm_num i lb a ln s v Hi Hv). replace (v mod 2 =? 0) with true by lia.
+    cbn [pbind]. rewrite (need_reg_of_field _ _ ln H1), (need_reg_of_field _ _ ln H2). reflexivity.
+  - intros s v Hi Hv Ho. rewrite (label_or_imm_num i lb a ln s v Hi Hv).
+    replace (v mod 2 =? 0) with false by lia. reflexivity.
+  - intros o Hi Ho Hl. rewrite (label_or_imm_unknown i lb a ln o Hi Ho Hl). reflexivity.
+Qed.
+
+Lemma jal_target_lem : forall i lb a ln, k_mn i = 45 ->
+  (* label (+ offset): pc-relative immediate, printed target = label + offset *)
+  (forall l t o rd, k_imm i = None -> k_label i = Some l -> offset_value i o ->
+     mget_opt lb l = Some t -> reg_field (k_rd i) rd ->
+     instantiate_one i lb a ln = POk (IJal rd (sext21 (t + o - a)) (t + o)) /\
+     (-1048576 <= t + o - a < 1048576 -> a + sext21 (t + o - a) = t + o)) /\
+  (* number: an ABSOLUTE target *)
+  (forall s v rd, k_imm i = Some s -> py_int0 s = Some v -> v mod 2 = 0 -> reg_field (k_rd i) rd ->
+     instantiate_one i lb a ln = POk (IJal rd (sext21 (v - a)) v) /\
+     (-1048576 <= v - a < 1048576 -> a + sext21 (v - a) = v)) /\
+  (forall s v, k_imm i = Some s -> py_int0 s = Some v -> v mod 2 <> 0 ->
+     instantiate_one i lb a ln = PErr (POdd ln)) /\
+  (forall o, k_imm i = None -> offset_value i o ->
+     (k_label i = None \/ exists l, k_label i = Some l /\ mget_opt lb l = None) ->
+     instantiate_one i lb a ln = PErr (PLabel ln)).
+Proof.
+  intros i lb a ln Hmn. rewrite (inst_Jal i lb a ln Hmn). cbv zeta. split; [|split; [|split]].
+  - intros l t o rd Hi Hl Ho Hm H1. split.
+    + rewrite (label_or_imm_label i lb a ln l t o Hi Hl Ho Hm). cbn [pbind]. rewrite Hi.
+      rewrite (need_reg_of_field _ _ ln H1). cbn [pbind mk].
+      replace (t + o - a + a) with (t + o) by lia. reflexivity.
+    + intros Hr. rewrite sext21_small by exact Hr. lia.
+  - intros s v rd Hi Hv He H1. split.
+    + rewrite (label_or_imm_num i lb a ln s v Hi Hv). replace (v mod 2 =? 0) with true by lia.
+      cbn [pbind]. rewrite Hi. rewrite (need_reg_of_field _ _ ln H1). cbn [pbind mk].
+      replace (v - a + a) with v by lia. reflexivity.
+    + intros Hr. rewrite sext21_small by exact Hr. lia.
+  - intros s v Hi Hv Ho. rewrite (label_or_imm_num i lb a ln s v Hi Hv).
+    replace (v mod 2 =? 0) with false by lia. reflexivity.
+  - intros o Hi Ho Hl. rewrite (label_or_imm_unknown i lb a ln o Hi Ho Hl). reflexivity.
+Qed.
+
+(* ------------------------------------------------------------------------------------------ *)
+(** * B.5 Operand mapping, class by class *)
+
+Ltac inv_binds H :=
+  repeat (let v := fresh "v" in let E := fresh "E" in
+          apply pbind_ok in H; destruct H as (v & E & H)).
+Ltac fields :=
+  repeat match goal with
+  | E : need_reg _ _ = POk _ |- _ => apply need_reg_ok in E
+  | E : need_int _ _ = POk _ |- _ => apply need_int_ok in E
+  end.
+Ltac refold_fields :=
+  repeat match goal with
+  | H : reg_field _ _ |- _ => rewrite (need_reg_of_field _ _ _ H); clear H
+  | H : int_field _ _ |- _ => rewrite (need_int_of_field _ _ _ H); clear H
+  end.
+
+Lemma operand_mapping_lem : forall i lb a ln x,
+  let mn := k_mn i in
+  (0 <= mn <= 17 ->
+     (instantiate_one i lb a ln = POk x <->
+      exists rd rs1 rs2, reg_field (k_rd i) rd /\ reg_field (k_rs1 i) rs1 /\ reg_field (k_rs2 i) rs2 /\
+        x = IR (rop_of_mn mn) rd rs1 rs2)) /\
+  (18 <= mn <= 23 ->
+     (instantiate_one i lb a ln = POk x <->
+      exists rd rs1 v, reg_field (k_reg1 i) rd /\ reg_field (k_reg2 i) rs1 /\ int_field (k_imm i) v /\
+        x = II (iop_of_mn mn) rd rs1 (sext12 v))) /\
+  (24 <= mn <= 26 ->
+     (instantiate_one i lb a ln = POk x <->
+      exists rd rs1 v, reg_field (k_reg1 i) rd /\ reg_field (k_reg2 i) rs1 /\ int_field (k_imm i) v /\
+        x = ISh (shop_of_mn mn) rd rs1 (Z.land v 31))) /\
+  (27 <= mn <= 31 ->
+     (instantiate_one i lb a ln = POk x <->
+      exists rd rs1 v, reg_field (k_reg1 i) rd /\ reg_field (k_reg2 i) rs1 /\ int_field (k_imm i) v /\
+        x = ILoad (lop_of_mn mn) rd rs1 (sext12 v))) /\
+  (mn = 32 ->
+     (instantiate_one i lb a ln = POk x <->
+      exists rd rs1 v, reg_field (k_reg1 i) rd /\ reg_field (k_reg2 i) rs1 /\ int_field (k_imm i) v /\
+        x = IJalr rd rs1 (sext12 v))) /\
+  (34 <= mn <= 36 ->
+     (instantiate_one i lb a ln = POk x <->
+      exists rs2 rs1 v, reg_field (k_reg1 i) rs2 /\ reg_field (k_reg2 i) rs1 /\ int_field (k_imm i) v /\
+        x = IStore (sop_of_mn mn) rs1 rs2 (sext12 v))) /\
+  (37 <= mn <= 42 -> instantiate_one i lb a ln = POk x ->
+      exists rs1 rs2 v, reg_field (k_reg1 i) rs1 /\ reg_field (k_reg2 i) rs2 /\
+        label_or_imm i lb a ln = POk v /\ x = IBranch (bop_of_mn mn) rs1 rs2 (sext13 v)) /\
+  (43 <= mn <= 44 ->
+     (instantiate_one i lb a ln = POk x <->
+      exists rd v, reg_field (k_rd i) rd /\ int_field (k_imm i) v /\
+        x = if mn =? 43 then ILui rd (sext20 v) else IAuipc rd (sext20 v))) /\
+  (48 <= mn <= 50 ->
+     (instantiate_one i lb a ln = POk x <->
+      exists rd csr rs1, reg_field (k_rd i) rd /\ int_field (k_csr i) csr /\ reg_field (k_rs1 i) rs1 /\
+        x = ICsr (csrop_of_mn mn) rd csr rs1)) /\
+  (51 <= mn <= 53 ->
+     (instantiate_one i lb a ln = POk x <->
+      exists rd csr u, reg_field (k_rd i) rd /\ int_field (k_csr i) csr /\ int_field (k_uimm i) u /\
+        x = ICsri (csriop_of_mn mn) rd csr (Z.land u 31))) /\
+  (mn = 47 -> instantiate_one i lb a ln = POk IFence) /\
+  (mn < 0 \/ 53 < mn -> instantiate_one i lb a ln = PErr (PSyntax ln)).
+Proof.
+  intros i lb a ln x mn. unfold mn; clear mn. unfold reg_field, int_field.
+  repeat match goal with |- _ /\ _ => split end.
+  - intros Hm. rewrite inst_R by exact Hm. split.
+    + intros H. inv_binds H. fields. injection H as <-. eauto 10.
+    + intros (rd & rs1 & rs2 & H1 & H2 & H3 & ->). fold (reg_field (k_rd i) rd) in H1.
+      fold (reg_field (k_rs1 i) rs1) in H2. fold (reg_field (k_rs2 i) rs2) in H3.
+      refold_fields. reflexivity.
+  - intros Hm. rewrite inst_I by exact Hm. split.
+    + intros H. inv_binds H. fields. injection H as <-. eauto 10.
+    + intros (rd & rs1 & v & H1 & H2 & H3 & ->). fold (reg_field (k_reg1 i) rd) in H1.
+      fold (reg_field (k_reg2 i) rs1) in H2. fold (int_field (k_imm i) v) in H3.
+      refold_fields. reflexivity.
+  - intros Hm. rewrite inst_Sh by exact Hm. split.
+    + intros H. inv_binds H. fields. injection H as <-. eauto 10.
+    + intros (rd & rs1 & v & H1 & H2 & H3 & ->). fold (reg_field (k_reg1 i) rd) in H1.
+      fold (reg_field (k_reg2 i) rs1) in H2. fold (int_field (k_imm i) v) in H3.
+      refold_fields. reflexivity.
+  - intros Hm. rewrite inst_Load by exact Hm. split.
+    + intros H. inv_binds H. fields. injection H as <-. eauto 10.
+    + intros (rd & rs1 & v & H1 & H2 & H3 & ->). fold (reg_field (k_reg1 i) rd) in H1.
+      fold (reg_field (k_reg2 i) rs1) in H2. fold (int_field (k_imm i) v) in H3.
+      refold_fields. reflexivity.
+  - intros Hm. rewrite inst_Jalr by exact Hm. split.
+    + intros H. inv_binds H. fields. injection H as <-. eauto 10.
+    + intros (rd & rs1 & v & H1 & H2 & H3 & ->). fold (reg_field (k_reg1 i) rd) in H1.
+      fold (reg_field (k_reg2 i) rs1) in H2. fold (int_field (k_imm i) v) in H3.
+      refold_fields. reflexivity.
+  - intros Hm. rewrite inst_Store by exact Hm. split.
+    + intros H. inv_binds H. fields. injection H as <-. eauto 10.
+    + intros (rs2 & rs1 & v & H1 & H2 & H3 & ->). fold (reg_field (k_reg1 i) rs2) in H1.
+      fold (reg_field (k_reg2 i) rs1) in H2. fold (int_field (k_imm i) v) in H3.
+      refold_fields. reflexivity.
+  - intros Hm. rewrite inst_Branch by exact Hm. intros H. inv_binds H. fields.
+    injection H as <-. eauto 10.
+  - intros Hm. rewrite inst_U by exact Hm. split.
+    + intros H. inv_binds H. fields. injection H as <-. exists v, v0.
+      split; [assumption|]. split; [assumption|]. destruct (k_mn i =? 43); reflexivity.
+    + intros (rd & v & H1 & H2 & ->). fold (reg_field (k_rd i) rd) in H1.
+      fold (int_field (k_imm i) v) in H2. refold_fields. cbn [pbind]. destruct (k_mn i =? 43); reflexivity.
+  - intros Hm. rewrite inst_Csr by exact Hm. split.
+    + intros H. inv_binds H. fields. injection H as <-. eauto 10.
+    + intros (rd & csr & rs1 & H1 & H2 & H3 & ->). fold (reg_field (k_rd i) rd) in H1.
+      fold (int_field (k_csr i) csr) in H2. fold (reg_field (k_rs1 i) rs1) in H3.
+      refold_fields. reflexivity.
+  - intros Hm. rewrite inst_Csri by exact Hm. split.
+    + intros H. inv_binds H. fields. injection H as <-. eauto 10.
+    + intros (rd & csr & u & H1 & H2 & H3 & ->). fold (reg_field (k_rd i) rd) in H1.
+      fold (int_field (k_csr i) csr) in H2. fold (int_field (k_uimm i) u) in H3.
+      refold_fields. reflexivity.
+  - intros Hm. apply inst_Fence. exact Hm.
+  - intros Hm. apply inst_outside. exact Hm.
+Qed.
+
+(* ------------------------------------------------------------------------------------------ *)
+(** * B.6 Register names *)
+
+Lemma reg_num_x r : 0 <= r -> reg_num (RX (str_dec r)) = Some r.
+Proof. intros H. cbn [reg_num]. rewrite digits_value_str_dec by exact H. reflexivity. Qed.
+
+Lemma zrange_from_in n : forall s r, s <= r < s + Z.of_nat n -> In r (zrange_from s n).
+Proof.
+  induction n as [|n IH]; intros s r H; [lia|]. cbn [zrange_from In].
+  destruct (Z.eq_dec s r) as [->|Hne]; [left; reflexivity | right; apply IH; lia].
+Qed.
+
+Definition abi_ok (p : str * Z) : bool :=
+  match reg_num (RAbi (fst p)) with Some v => (v =? snd p) && (0 <=? v) && (v <? 32) | None => false end.
+
+Lemma reg_names_lem :
+  (forall r, 0 <= r < 32 -> reg_num (RX (str_dec r)) = Some r) /\
+  (forall name r, In (name, r) abi_table -> reg_num (RAbi name) = Some r /\ 0 <= r < 32) /\
+  (forall r, 0 <= r < 32 -> exists name, In (name, r) abi_table) /\
+  (forall name, reg_num (RAbi name) <> None -> In name (map fst abi_table)) /\
+  reg_num (RAbi [102; 112]) = Some 8 /\ reg_num (RAbi [115; 48]) = Some 8.
+Proof.
+  split; [intros r Hr; apply reg_num_x; lia|]. split; [|split; [|split; [|split; reflexivity]]].
+  - assert (Hall: forallb abi_ok abi_table = true) by (vm_compute; reflexivity).
+    rewrite forallb_forall in Hall. intros name r Hin. specialize (Hall _ Hin).
+    unfold abi_ok in Hall; cbn [fst snd] in Hall.
+    destruct (reg_num (RAbi name)) as [v|]; [|discriminate]. split; [f_equal|]; lia.
+  - assert (Hall: forallb (fun r => existsb (fun p : str * Z => snd p =? r) abi_table)
+                    (zrange_from 0 32) = true) by (vm_compute; reflexivity).
+    rewrite forallb_forall in Hall. intros r Hr.
+    assert (Hin: In r (zrange_from 0 32)) by (apply zrange_from_in; lia).
+    specialize (Hall _ Hin). apply existsb_exists in Hall as ([name v] & Hp & Hv).
+    cbn [snd] in Hv. exists name. replace r with v by lia. exact Hp.
+  - intros name. cbn [reg_num]. generalize abi_table. intros tb.
+    induction tb as [|[k v] t IH]; cbn [assoc_str map fst In]; [congruence|].
+    destruct (str_eqb k name) eqn:E.
+    + intros _. left. clear - E. revert name E.
+      induction k as [|c k IHk]; intros [|d name]; cbn [str_eqb]; try discriminate; [reflexivity|].
+      intros H. apply andb_true_iff in H as [Hc Hr]. f_equal; [lia | apply IHk; exact Hr].
+    + intros H. right. apply IH. exact H.
+Qed.
+
+(* ------------------------------------------------------------------------------------------ *)
+(** * B.7 nop and mv *)
+
+Lemma nop_mv_expansion_lem :
+  (forall vars ln lb a ln',
+     exists t, expand_one vars ln (BStr 2) = POk [BIns t] /\
+               instantiate_one t lb a ln' = POk (mk (II ADDI 0 0 0))) /\
+  (forall vars ln i rd rs, k_mn i = MN_MV -> k_rd i = Some rd -> k_rs i = Some rs ->
+     exists t, expand_one vars ln (BIns i) = POk [BIns t] /\
+       forall lb a ln' d s0, reg_num rd = Some d -> reg_num rs = Some s0 ->
+         instantiate_one t lb a ln' = POk (mk (II ADDI d s0 0))).
+Proof.
+  split.
+  - intros vars ln lb a ln'. eexists. split; [reflexivity|]. vm_compute. reflexivity.
+  - intros vars ln i rd rs Hm Hrd Hrs. exists (tok_rri MN_ADDI rd rs [48]). split.
+    + unfold expand_one; cbv zeta. rewrite Hm. cbn. rewrite Hrd, Hrs. reflexivity.
+    + intros lb a ln' d s0 Hd Hs. rewrite inst_I by (cbn [k_mn tok_rri]; unfold MN_ADDI; lia).
+      cbn [k_imm k_reg1 k_reg2 tok_rri]. rewrite (need_reg_some _ _ _ Hd), (need_reg_some _ _ _ Hs).
+      reflexivity.
+Qed.
